@@ -149,6 +149,33 @@ def run(prop, tier):
                 b["fan"] = "full"
     if not sel:
         raise vlib.ToolError("no behaviour selected for %s (vacuous run)" % prop)
+    if prop == "C04":
+        # random bytes in every protocol state (weak oracle: no panic, ends after the client's end of stream, bounded allocation):
+        # an honest prefix of a behaviour, then seeded random bytes (raw, or behind a plausible length prefix), then EOF
+        import random
+        rnd = random.Random(seed * 1000003 + 4)
+        honest = [b for b in behaviours if len(b["hist"]) == 1 and not any(ev["e"] == "rx" and (ev["f"].get("unexpected") or ev["f"].get("k") == "Malformed"
+                                                                                                 or ev["f"].get("next") in ("next0", "next4")) for ev in flat(b))]
+        fuzz = []
+        for _ in range(400 if tier == "quick" else 20000):
+            b = rnd.choice(honest)
+            rxs = [ev for ev in b["hist"][0]["obs"] if ev["e"] == "rx"]
+            cut = rnd.randint(0, len(rxs))
+            kind = rnd.random()
+            if kind < 0.4:
+                raw = bytes(rnd.randrange(256) for _ in range(rnd.randint(1, 64)))
+            elif kind < 0.8:
+                body = bytes(rnd.randrange(256) for _ in range(rnd.randint(1, 120)))
+                raw = bytes([len(body)]) + body if len(body) < 128 else bytes([0x80 | (len(body) & 0x7f), len(body) >> 7]) + body
+            else:
+                # a short frame with a small packet id and a random body (likely to reach a packet parser)
+                body = bytes([rnd.randrange(8)]) + bytes(rnd.randrange(256) for _ in range(rnd.randint(0, 40)))
+                raw = bytes([len(body)]) + body
+            r0 = dict(b["hist"][0])
+            r0["obs"] = rxs[:cut] + [{"e": "rx", "f": {"k": "Fuzz", "hex": raw.hex()}}]
+            r0["result"] = "Err"
+            fuzz.append({"why": "fuzz", "hist": [r0], "fuzz": True})
+        sel = sel + fuzz
     if prop == "C10":
         # wall-clock dependence: two histories whose first connection spends 3.2 real seconds in discovery (the issued cookie must carry the
         # time of issue, not the time the login started)
@@ -179,6 +206,8 @@ def run(prop, tier):
     samples = []
     for o in observed:
         beh = sel[o["i"]]
+        if beh.get("fuzz"):
+            continue
         same = len(beh["hist"]) == len(o["hist"]) and all(
             [strip(e) for e in a["obs"]] == [strip(e) for e in b["obs"]] and a["result"] == res_class(b["result"])
             for a, b in zip(beh["hist"], o["hist"]))
